@@ -44,7 +44,7 @@ func cmdPriorityMatrix(args []string) error {
 	rs := make([]*rules.NetworkRule, n)
 	for i := range pool {
 		t := pool[i].text(int(seed())%3, rnd)
-		r, err := rules.NewNetworkRule(t, 1)
+		r, err := rules.NewNetworkRule(t, []int{1, 2, 3, -4}[i%4])
 		if err != nil {
 			return fmt.Errorf("pool rule %q rejected: %v", t, err)
 		}
